@@ -49,9 +49,6 @@ impl SimStorage {
         slot.as_mut().map(|p| &mut p[..])
     }
 
-    pub fn materialised(&self) -> usize {
-        self.pages.iter().filter(|p| p.is_some()).count()
-    }
 }
 
 impl Storage for SimStorage {
